@@ -101,7 +101,7 @@ static inline int parse_xml(XmlDoc& d, Document* doc, bool newxta = true)
 
 // ---------------------------------------------------------------- abstract model
 struct MLoc { std::string id, name, inv, rate; bool urgent = false, committed = false; std::string comment; /* a <label kind="comments"> after the other labels (XML only) */ };
-struct MEdge { int src = 0, dst = 0; bool src_bp = false, dst_bp = false; int ctrl = 0 /* 0 attribute absent, 1 "true", 2 "false" */; std::string select, guard, sync, assign, prob, comment;
+struct MEdge { int src = 0, dst = 0; bool src_bp = false, dst_bp = false; int ctrl = 0 /* 0 attribute absent, 1 "true", 2 "false" */; std::string select, guard, sync, assign, prob, comment; bool empty_guard_label = false;   /* a guard label element without text */
     std::string dst_ref_override, dst_name_override;   /* faults: XML target ref / XTA target name given verbatim */ };
 struct MTemplate { std::string name, params, decls; std::vector<MLoc> locs; std::vector<std::string> bps; int init = 0; std::vector<MEdge> edges; std::string init_ref_override, init_name_override; /* faults: what init names instead of a location */ };
 struct MModel { std::string gdecl; std::vector<MTemplate> templs; std::string system; };
@@ -112,6 +112,8 @@ static inline bool edge_control(const MEdge& e) { return e.ctrl != 2; }
 static std::string xml_name_pad_left, xml_name_pad_right;
 // which text blocks are written as CDATA sections instead of escaped text: 1 labels, 2 declarations / parameters / system
 static int xml_cdata_mask = 0;
+// elements without content written in the self-closing form (<location id=".."/>, <label kind="guard"/>) instead of start and end tag
+static bool xml_selfclose = false;
 static inline XmlDoc render_xml(const MModel& m)
 {
     auto padded = [&](const std::string& n) { return xml_name_pad_left + n + xml_name_pad_right; };
@@ -124,6 +126,7 @@ static inline XmlDoc render_xml(const MModel& m)
         if (!t.params.empty()) d.leaf("parameter", t.params, {}, xml_cdata_mask & 2);
         d.leaf("declaration", t.decls, {}, xml_cdata_mask & 2);
         for (auto& l : t.locs) {
+            if (xml_selfclose && l.name.empty() && l.inv.empty() && l.rate.empty() && l.comment.empty() && !l.urgent && !l.committed) { d.empty("location", {{"id", l.id}}); continue; }
             d.el("location", {{"id", l.id}});
             if (!l.name.empty()) d.leaf("name", padded(l.name));
             if (!l.inv.empty()) d.leaf("label", l.inv, {{"kind", "invariant"}}, xml_cdata_mask & 1);
@@ -143,6 +146,7 @@ static inline XmlDoc render_xml(const MModel& m)
             d.empty("target", {{"ref", !e.dst_ref_override.empty() ? e.dst_ref_override : e.dst_bp ? t.bps[e.dst] : t.locs[e.dst].id}});
             if (!e.select.empty()) d.leaf("label", e.select, {{"kind", "select"}}, xml_cdata_mask & 1);
             if (!e.guard.empty()) d.leaf("label", e.guard, {{"kind", "guard"}}, xml_cdata_mask & 1);
+            else if (e.empty_guard_label) { if (xml_selfclose) d.empty("label", {{"kind", "guard"}}); else d.el("label", {{"kind", "guard"}}).end(); }
             if (!e.sync.empty()) d.leaf("label", e.sync, {{"kind", "synchronisation"}}, xml_cdata_mask & 1);
             if (!e.assign.empty()) d.leaf("label", e.assign, {{"kind", "assignment"}}, xml_cdata_mask & 1);
             if (!e.prob.empty()) d.leaf("label", e.prob, {{"kind", "probability"}}, xml_cdata_mask & 1);
